@@ -234,5 +234,9 @@ SUBCHECKS = [
 ]
 
 
+# coverage-guided campaigns of the thorough tier (pv/fuzz.py): (sub-check, libFuzzer runs per shard)
+FUZZ = [("random-L0", 40000)]
+
+
 def subcheck(name):
     return {s.name: s for s in SUBCHECKS}[name]
